@@ -37,15 +37,24 @@ META = {
                   "k/8, strings with commas / quotes / spaces, NA) x every partitioning into <= 4 partitions x single_file x write_index "
                   "with the files to be written and the rows to come back. dask: read_csv(dtype=str) of the texts for every blocksize "
                   "(the shortest texts and a seeded selection; a few blocksizes for the others) with sample default/False; to_csv (single file, glob + name_function, directory) and "
-                  "read_csv back (inferred / explicit dtypes, default / tiny blocksize). TLC decides every record.",
+                  "read_csv back (inferred / explicit dtypes, default / tiny blocksize). Reader options: header in {infer,0,1,2,None} x names "
+                  "absent/given x skiprows in {0,1,2,[0],[1]} x comment='#' absent/given (100 combinations) x seeded small files with junk / "
+                  "comment / blank lines before the header and blank lines between the rows; the TLA+ reference ReadOpts (which physical "
+                  "lines are skipped, which remaining line is the header, which are data) is guarded by pandas.read_csv with the same "
+                  "options on the whole file, and dask is run for every blocksize of a seeded selection (a few blocksizes for the others), "
+                  "with the default sample, sample=False and a sample of a few bytes. TLC decides every record.",
     "level_note": "NOT DECIDED: the parquet half (to_parquet / read_parquet need pyarrow, which is not installed and cannot be; "
                   "dask.dataframe itself is imported through an inert pyarrow shim). Trusted: TLC, the byte-level projection of frames, "
                   "pandas' own parser / writer inside one block (guarded: pandas.read_csv and pandas.to_csv must agree with the TLA+ "
                   "parse / write on every case), Python's csv module in the twin judge. Not modelled: line terminators inside quoted "
-                  "fields (documented as unsupported with blocks), CRLF, comments, skiprows, compression, include_path_column, "
+                  "fields (documented as unsupported with blocks), CRLF, partial-line comments, skip_blank_lines=False, skipfooter, "
+                  "callable skiprows, header lists (documented restrictions), compression, include_path_column, "
                   "datetimes, partition_on (parquet only). Values are compared, not dtypes (an int column read back as float or object "
                   "with equal values passes); 'Mismatched dtypes' errors of read_csv's sample-based inference are a documented "
-                  "limitation and are skipped.",
+                  "limitation and are skipped; so are reader-option cases in which skiprows is given and the first block, or the sample "
+                  "(cut down to the blocksize by read_pandas), does not hold the skipped lines and the header line ('Unexpected behavior "
+                  "can result from passing skiprows when blocksize is smaller than sample size'), and 'Sample is not large enough'. "
+                  "Where pandas raises on the whole file nothing is demanded.",
 }
 
 MENU = [[97, 44, 98], [97, 98], [49], [], [120, 34, 121], [98, 55], [97]]     # a,b  ab  1  (empty)  x"y  b7  a
@@ -386,7 +395,7 @@ def py_bad(rec, expect):
         if e["err"]:
             return set()            # pandas raises on the whole file: don't-care
         if obs["raised"]:
-            return {"Raised"}
+            return set() if e["lax"] else {"Raised"}
         return ({"Header"} if obs["hdr"] != e["hdr"] else set()) | ({"Rows"} if obs["rows"] != e["rows"] else set())
     if obs["raised"]:
         return {"Raised"}
